@@ -138,3 +138,542 @@ Section ScanFacts.
     rewrite Hfirst, Hbl. reflexivity.
   Qed.
 End ScanFacts.
+
+(* ------------------------------------------------------------------ *)
+(* the scanner meets the specification                                 *)
+(* ------------------------------------------------------------------ *)
+
+Lemma byte_len_app : forall a b, byte_len (a ++ b) = byte_len a + byte_len b.
+Proof.
+  intros a b. induction a as [|x a IH]; cbn [byte_len app]; [reflexivity | rewrite IH; lia].
+Qed.
+
+Lemma len_utf8_ascii : forall c, (c <? 128)%N = true -> len_utf8 c = 1.
+Proof. intros c H. unfold len_utf8. rewrite H. reflexivity. Qed.
+
+Section ScanMain.
+  Variable isnum : N -> bool.
+  Hypothesis Hsane : isnum_sane isnum.
+
+  Lemma num_all_nd : forall ds, Forall (fun c => isnum c = true) ds -> Forall nd ds.
+  Proof.
+    intros ds H. induction H as [|c l Hc Hl IH]; constructor; [|assumption].
+    apply (num_not_dollar isnum Hsane); assumption.
+  Qed.
+
+  (* re-association used to hand the state after a '$' to the induction hypothesis *)
+  Lemma reassoc : forall (done lits mid r : list N),
+    done ++ lits ++ mid ++ r = (done ++ lits ++ mid) ++ [] ++ r.
+  Proof. intros. cbn [app]. rewrite <- !app_assoc. reflexivity. Qed.
+
+  Lemma len3 : forall (done lits mid : list N),
+    length (done ++ lits ++ mid) = length done + length lits + length mid.
+  Proof. intros. rewrite !app_length. lia. Qed.
+
+  Lemma scan_ok : forall rest ts, tokenises isnum rest ts ->
+    forall done lits outs fuel, Forall nd lits -> length rest < fuel ->
+      scan isnum fuel (done ++ lits ++ rest) (length done) outs
+      = Done (SubstOk (outs ++ lits ++ render ts)).
+  Proof.
+    intros rest ts H.
+    induction H as [ | c r ts Hc Ht IH | r ts Ht IH | r ts Ht IH | r ts Ht IH
+                     | d ds r ts Hnum Hhd Ht IH ];
+      intros done lits outs fuel Hl Hf.
+    - (* end of text *)
+      destruct fuel as [|fuel]; [cbn in Hf; lia|].
+      cbn [scan]. rewrite slice_from_app. cbn [obind].
+      change (render []) with (@nil N). rewrite !app_nil_r.
+      rewrite (find_dollar_none _ Hl). reflexivity.
+    - (* a literal character joins the pending run *)
+      specialize (IH done (lits ++ [c]) outs fuel).
+      rewrite <- !app_assoc in IH. cbn [app] in IH.
+      rewrite IH.
+      + reflexivity.
+      + apply Forall_app. split; [assumption|]. constructor; [exact Hc | constructor].
+      + cbn [length] in Hf. lia.
+    - (* $$ *)
+      destruct fuel as [|fuel]; [cbn in Hf; lia|].
+      change (s_dd ++ r) with (DOLLAR :: DOLLAR :: r).
+      rewrite (scan_at_dollar isnum fuel done lits (DOLLAR :: r) outs Hl). cbn zeta.
+      replace (starts_with s_dd (DOLLAR :: DOLLAR :: r)) with true by reflexivity.
+      specialize (IH (done ++ lits ++ [DOLLAR; DOLLAR]) [] (outs ++ (lits ++ [DOLLAR])) fuel (Forall_nil _)).
+      rewrite len3 in IH. cbn [length] in IH.
+      rewrite <- (reassoc done lits [DOLLAR; DOLLAR] r) in IH. cbn [app] in IH.
+      cbn [app]. rewrite IH.
+      + cbn [app]. unfold render. cbn [map concat render1]. rewrite <- !app_assoc. reflexivity.
+      + unfold s_dd in Hf. cbn [length app] in Hf. lia.
+    - (* $lexer *)
+      destruct fuel as [|fuel]; [cbn in Hf; lia|].
+      change (s_lexer ++ r) with (DOLLAR :: (tl s_lexer ++ r)).
+      rewrite (scan_at_dollar isnum fuel done lits (tl s_lexer ++ r) outs Hl). cbn zeta.
+      replace (starts_with s_dd (DOLLAR :: tl s_lexer ++ r)) with false by reflexivity.
+      replace (starts_with s_lexer (DOLLAR :: tl s_lexer ++ r)) with true
+        by (symmetry; apply (starts_with_app s_lexer r)).
+      specialize (IH (done ++ lits ++ s_lexer) [] (outs ++ lits ++ out_lexer) fuel (Forall_nil _)).
+      rewrite len3 in IH. cbn [length s_lexer] in IH.
+      rewrite <- (reassoc done lits s_lexer r) in IH.
+      change (DOLLAR :: tl s_lexer ++ r) with (s_lexer ++ r).
+      rewrite IH.
+      + cbn [app]. unfold render. cbn [map concat render1]. rewrite <- !app_assoc. reflexivity.
+      + unfold s_lexer in Hf. cbn [length app] in Hf. lia.
+    - (* $span *)
+      destruct fuel as [|fuel]; [cbn in Hf; lia|].
+      change (s_span ++ r) with (DOLLAR :: (tl s_span ++ r)).
+      rewrite (scan_at_dollar isnum fuel done lits (tl s_span ++ r) outs Hl). cbn zeta.
+      replace (starts_with s_dd (DOLLAR :: tl s_span ++ r)) with false by reflexivity.
+      replace (starts_with s_lexer (DOLLAR :: tl s_span ++ r)) with false by reflexivity.
+      replace (starts_with s_span (DOLLAR :: tl s_span ++ r)) with true
+        by (symmetry; apply (starts_with_app s_span r)).
+      specialize (IH (done ++ lits ++ s_span) [] (outs ++ lits ++ out_span) fuel (Forall_nil _)).
+      rewrite len3 in IH. cbn [length s_span] in IH.
+      rewrite <- (reassoc done lits s_span r) in IH.
+      change (DOLLAR :: tl s_span ++ r) with (s_span ++ r).
+      rewrite IH.
+      + cbn [app]. unfold render. cbn [map concat render1]. rewrite <- !app_assoc. reflexivity.
+      + unfold s_span in Hf. cbn [length app] in Hf. lia.
+    - (* $<digits> : the '$' becomes "__gt_arg_", the digits stay as literal text *)
+      destruct fuel as [|fuel]; [cbn in Hf; lia|].
+      assert (Hd : isnum d = true) by (inversion Hnum; assumption).
+      pose proof (num_not_dollar isnum Hsane d Hd) as Hd1.
+      pose proof (num_not_l isnum Hsane d Hd) as Hd2.
+      pose proof (num_not_s isnum Hsane d Hd) as Hd3.
+      rewrite (scan_at_dollar isnum fuel done lits ((d :: ds) ++ r) outs Hl). cbn zeta.
+      assert (E1 : starts_with s_dd (DOLLAR :: (d :: ds) ++ r) = false).
+      { cbn [starts_with s_dd app]. rewrite N.eqb_refl. cbn [andb].
+        replace (36 =? d)%N with false; [reflexivity|].
+        symmetry. apply N.eqb_neq. intro E. apply Hd1. symmetry. exact E. }
+      assert (E2 : starts_with s_lexer (DOLLAR :: (d :: ds) ++ r) = false).
+      { cbn [starts_with s_lexer app]. rewrite N.eqb_refl. cbn [andb].
+        replace (108 =? d)%N with false; [reflexivity|].
+        symmetry. apply N.eqb_neq. intro E. apply Hd2. symmetry. exact E. }
+      assert (E3 : starts_with s_span (DOLLAR :: (d :: ds) ++ r) = false).
+      { cbn [starts_with s_span app]. rewrite N.eqb_refl. cbn [andb].
+        replace (115 =? d)%N with false; [reflexivity|].
+        symmetry. apply N.eqb_neq. intro E. apply Hd3. symmetry. exact E. }
+      rewrite E1, E2, E3. cbn [app]. rewrite Hd.
+      specialize (IH (done ++ lits ++ [DOLLAR]) (d :: ds) (outs ++ lits ++ out_arg) fuel (num_all_nd _ Hnum)).
+      rewrite len3 in IH. cbn [length] in IH.
+      replace ((done ++ lits ++ [DOLLAR]) ++ (d :: ds) ++ r) with (done ++ lits ++ DOLLAR :: d :: ds ++ r) in IH
+        by (rewrite <- !app_assoc; reflexivity).
+      rewrite IH.
+      + unfold render. cbn [map concat render1]. rewrite <- !app_assoc. reflexivity.
+      + cbn [length app] in Hf. rewrite app_length in Hf. lia.
+  Qed.
+End ScanMain.
+
+Section ScanErr.
+  Variable isnum : N -> bool.
+  Hypothesis Hsane : isnum_sane isnum.
+
+  Lemma scan_err : forall rest n, bad_at isnum rest n ->
+    forall done lits outs fuel, Forall nd lits -> length rest < fuel ->
+      scan isnum fuel (done ++ lits ++ rest) (length done) outs
+      = Done (SubstErr (byte_len (done ++ lits) + n)).
+  Proof.
+    intros rest n H.
+    induction H as [ r Hbad | c r n Hc Hb IH | r n Hb IH | r n Hb IH | r n Hb IH | d r n Hd Hb IH ];
+      intros done lits outs fuel Hl Hf.
+    - (* the offending '$' *)
+      destruct fuel as [|fuel]; [cbn in Hf; lia|].
+      rewrite (scan_at_dollar isnum fuel done lits r outs Hl). cbn zeta.
+      destruct (starts_with s_dd (DOLLAR :: r)) eqn:E1.
+      { exfalso. apply Hbad. left. cbn [starts_with s_dd] in E1. rewrite N.eqb_refl in E1. exact E1. }
+      destruct (starts_with s_lexer (DOLLAR :: r)) eqn:E2.
+      { exfalso. apply Hbad. right. left. cbn [starts_with s_lexer] in E2. rewrite N.eqb_refl in E2. exact E2. }
+      destruct (starts_with s_span (DOLLAR :: r)) eqn:E3.
+      { exfalso. apply Hbad. right. right. left. cbn [starts_with s_span] in E3. rewrite N.eqb_refl in E3. exact E3. }
+      destruct r as [|c r'].
+      { reflexivity. }
+      destruct (isnum c) eqn:Ec.
+      { exfalso. apply Hbad. right. right. right. exists c, r'. split; [reflexivity | exact Ec]. }
+      reflexivity.
+    - specialize (IH done (lits ++ [c]) outs fuel).
+      rewrite <- !app_assoc in IH. cbn [app] in IH.
+      rewrite IH.
+      + rewrite (app_assoc done lits [c]). rewrite (byte_len_app (done ++ lits) [c]).
+        cbn [byte_len]. f_equal. f_equal. lia.
+      + apply Forall_app. split; [assumption|]. constructor; [exact Hc | constructor].
+      + cbn [length] in Hf. lia.
+    - destruct fuel as [|fuel]; [cbn in Hf; lia|].
+      change (s_dd ++ r) with (DOLLAR :: DOLLAR :: r).
+      rewrite (scan_at_dollar isnum fuel done lits (DOLLAR :: r) outs Hl). cbn zeta.
+      replace (starts_with s_dd (DOLLAR :: DOLLAR :: r)) with true by reflexivity.
+      specialize (IH (done ++ lits ++ [DOLLAR; DOLLAR]) [] (outs ++ (lits ++ [DOLLAR])) fuel (Forall_nil _)).
+      rewrite len3 in IH. cbn [length] in IH.
+      rewrite <- (reassoc done lits [DOLLAR; DOLLAR] r) in IH. cbn [app] in IH.
+      cbn [app]. rewrite IH.
+      + rewrite app_nil_r. rewrite (app_assoc done lits). rewrite (byte_len_app (done ++ lits)).
+        f_equal. f_equal. change (byte_len [DOLLAR; DOLLAR]) with 2. lia.
+      + unfold s_dd in Hf. cbn [length app] in Hf. lia.
+    - destruct fuel as [|fuel]; [cbn in Hf; lia|].
+      change (s_lexer ++ r) with (DOLLAR :: (tl s_lexer ++ r)).
+      rewrite (scan_at_dollar isnum fuel done lits (tl s_lexer ++ r) outs Hl). cbn zeta.
+      replace (starts_with s_dd (DOLLAR :: tl s_lexer ++ r)) with false by reflexivity.
+      replace (starts_with s_lexer (DOLLAR :: tl s_lexer ++ r)) with true
+        by (symmetry; apply (starts_with_app s_lexer r)).
+      specialize (IH (done ++ lits ++ s_lexer) [] (outs ++ lits ++ out_lexer) fuel (Forall_nil _)).
+      rewrite len3 in IH. cbn [length s_lexer] in IH.
+      rewrite <- (reassoc done lits s_lexer r) in IH.
+      change (DOLLAR :: tl s_lexer ++ r) with (s_lexer ++ r).
+      rewrite IH.
+      + rewrite app_nil_r. rewrite (app_assoc done lits). rewrite (byte_len_app (done ++ lits)).
+        f_equal. f_equal. change (byte_len s_lexer) with 6. lia.
+      + unfold s_lexer in Hf. cbn [length app] in Hf. lia.
+    - destruct fuel as [|fuel]; [cbn in Hf; lia|].
+      change (s_span ++ r) with (DOLLAR :: (tl s_span ++ r)).
+      rewrite (scan_at_dollar isnum fuel done lits (tl s_span ++ r) outs Hl). cbn zeta.
+      replace (starts_with s_dd (DOLLAR :: tl s_span ++ r)) with false by reflexivity.
+      replace (starts_with s_lexer (DOLLAR :: tl s_span ++ r)) with false by reflexivity.
+      replace (starts_with s_span (DOLLAR :: tl s_span ++ r)) with true
+        by (symmetry; apply (starts_with_app s_span r)).
+      specialize (IH (done ++ lits ++ s_span) [] (outs ++ lits ++ out_span) fuel (Forall_nil _)).
+      rewrite len3 in IH. cbn [length s_span] in IH.
+      rewrite <- (reassoc done lits s_span r) in IH.
+      change (DOLLAR :: tl s_span ++ r) with (s_span ++ r).
+      rewrite IH.
+      + rewrite app_nil_r. rewrite (app_assoc done lits). rewrite (byte_len_app (done ++ lits)).
+        f_equal. f_equal. change (byte_len s_span) with 5. lia.
+      + unfold s_span in Hf. cbn [length app] in Hf. lia.
+    - destruct fuel as [|fuel]; [cbn in Hf; lia|].
+      pose proof (num_not_dollar isnum Hsane d Hd) as Hd1.
+      pose proof (num_not_l isnum Hsane d Hd) as Hd2.
+      pose proof (num_not_s isnum Hsane d Hd) as Hd3.
+      rewrite (scan_at_dollar isnum fuel done lits (d :: r) outs Hl). cbn zeta.
+      assert (E1 : starts_with s_dd (DOLLAR :: d :: r) = false).
+      { cbn [starts_with s_dd]. rewrite N.eqb_refl. cbn [andb].
+        replace (36 =? d)%N with false; [reflexivity|].
+        symmetry. apply N.eqb_neq. intro E. apply Hd1. symmetry. exact E. }
+      assert (E2 : starts_with s_lexer (DOLLAR :: d :: r) = false).
+      { cbn [starts_with s_lexer]. rewrite N.eqb_refl. cbn [andb].
+        replace (108 =? d)%N with false; [reflexivity|].
+        symmetry. apply N.eqb_neq. intro E. apply Hd2. symmetry. exact E. }
+      assert (E3 : starts_with s_span (DOLLAR :: d :: r) = false).
+      { cbn [starts_with s_span]. rewrite N.eqb_refl. cbn [andb].
+        replace (115 =? d)%N with false; [reflexivity|].
+        symmetry. apply N.eqb_neq. intro E. apply Hd3. symmetry. exact E. }
+      rewrite E1, E2, E3, Hd.
+      specialize (IH (done ++ lits ++ [DOLLAR]) [] (outs ++ lits ++ out_arg) fuel (Forall_nil _)).
+      rewrite len3 in IH. cbn [length] in IH.
+      replace ((done ++ lits ++ [DOLLAR]) ++ [] ++ d :: r) with (done ++ lits ++ DOLLAR :: d :: r) in IH
+        by (cbn [app]; rewrite <- !app_assoc; reflexivity).
+      rewrite IH.
+      + rewrite app_nil_r. rewrite (app_assoc done lits). rewrite (byte_len_app (done ++ lits)).
+        f_equal. f_equal. change (byte_len [DOLLAR]) with 1. lia.
+      + cbn [length] in Hf. cbn [length]. lia.
+  Qed.
+End ScanErr.
+
+Lemma subst_ok : subst_ok_stmt.
+Proof.
+  intros isnum pre ts Hs H. unfold subst.
+  pose proof (scan_ok isnum Hs pre ts H [] [] [] (S (length pre)) (Forall_nil _)) as E.
+  cbn [app length] in E. apply E. lia.
+Qed.
+
+Lemma subst_err : subst_err_stmt.
+Proof.
+  intros isnum pre n Hs H. unfold subst.
+  pose proof (scan_err isnum Hs pre n H [] [] [] (S (length pre)) (Forall_nil _)) as E.
+  cbn [app length byte_len] in E. apply E. lia.
+Qed.
+
+(* ------------------------------------------------------------------ *)
+(* totality and unambiguity of the notation                            *)
+(* ------------------------------------------------------------------ *)
+
+Lemma starts_with_true : forall p s, starts_with p s = true -> exists r, s = p ++ r.
+Proof.
+  induction p as [|a p IH]; intros s H; cbn [starts_with] in H.
+  - exists s. reflexivity.
+  - destruct s as [|b s']; [discriminate|].
+    apply andb_true_iff in H. destruct H as [Hab Hp].
+    apply N.eqb_eq in Hab. subst b.
+    destruct (IH s' Hp) as [r Hr]. exists r. rewrite Hr. reflexivity.
+Qed.
+
+Section Total.
+  Variable isnum : N -> bool.
+  Hypothesis Hsane : isnum_sane isnum.
+
+  (* the maximal numeric run at the head of a text *)
+  Lemma numeric_run : forall r, exists ds r', r = ds ++ r' /\
+    Forall (fun c => isnum c = true) ds /\ head_not_numeric isnum r'.
+  Proof.
+    induction r as [|c r IH].
+    - exists [], []. repeat split; constructor.
+    - destruct (isnum c) eqn:Ec.
+      + destruct IH as [ds [r' [E [Hn Hh]]]].
+        exists (c :: ds), r'. subst r. repeat split; [constructor; assumption | exact Hh].
+      + exists [], (c :: r). repeat split; [constructor | exact Ec].
+  Qed.
+
+  Lemma bad_digits : forall ds r n, Forall (fun c => isnum c = true) ds ->
+    bad_at isnum r n -> bad_at isnum (ds ++ r) (byte_len ds + n).
+  Proof.
+    intros ds r n H Hb. induction H as [|c l Hc Hl IH]; cbn [app byte_len].
+    - exact Hb.
+    - rewrite <- Nat.add_assoc. apply B_lit; [|exact IH].
+      apply (num_not_dollar isnum Hsane); assumption.
+  Qed.
+
+  Lemma total_len : forall k pre, length pre <= k ->
+    (exists ts, tokenises isnum pre ts) \/ (exists n, bad_at isnum pre n).
+  Proof.
+    induction k as [|k IH]; intros pre Hk.
+    - destruct pre; [|cbn in Hk; lia]. left. exists []. constructor.
+    - destruct pre as [|c r].
+      { left. exists []. constructor. }
+      cbn [length] in Hk.
+      destruct (N.eq_dec c DOLLAR) as [Ec|Ec].
+      2:{ destruct (IH r ltac:(lia)) as [[ts Ht]|[n Hb]].
+          - left. exists (Lit c :: ts). constructor; assumption.
+          - right. exists (len_utf8 c + n). constructor; assumption. }
+      subst c.
+      destruct (starts_with [DOLLAR] r) eqn:E1.
+      { destruct (starts_with_true _ _ E1) as [r' Hr]. subst r. cbn [app length] in Hk.
+        destruct (IH r' ltac:(lia)) as [[ts Ht]|[n Hb]].
+        - left. exists (Dollar :: ts). apply (T_dollar isnum r' ts Ht).
+        - right. exists (2 + n). apply (B_dollar isnum r' n Hb). }
+      destruct (starts_with (tl s_lexer) r) eqn:E2.
+      { destruct (starts_with_true _ _ E2) as [r' Hr]. subst r.
+        rewrite app_length in Hk. cbn [length tl s_lexer] in Hk.
+        destruct (IH r' ltac:(lia)) as [[ts Ht]|[n Hb]].
+        - left. exists (LexerT :: ts). apply (T_lexer isnum r' ts Ht).
+        - right. exists (6 + n). apply (B_lexer isnum r' n Hb). }
+      destruct (starts_with (tl s_span) r) eqn:E3.
+      { destruct (starts_with_true _ _ E3) as [r' Hr]. subst r.
+        rewrite app_length in Hk. cbn [length tl s_span] in Hk.
+        destruct (IH r' ltac:(lia)) as [[ts Ht]|[n Hb]].
+        - left. exists (SpanT :: ts). apply (T_span isnum r' ts Ht).
+        - right. exists (5 + n). apply (B_span isnum r' n Hb). }
+      destruct r as [|d r'].
+      { right. exists 1. apply B_here. intros [H|[H|[H|[c [r' [H _]]]]]]; discriminate. }
+      destruct (isnum d) eqn:Ed.
+      2:{ right. exists 1. apply B_here.
+          intros [H|[H|[H|[c [r'' [H Hc]]]]]]; congruence. }
+      destruct (numeric_run r') as [ds [r'' [Er [Hn Hh]]]]. subst r'.
+      cbn [length] in Hk. rewrite app_length in Hk.
+      destruct (IH r'' ltac:(lia)) as [[ts Ht]|[n Hb]].
+      + left. exists (Arg (d :: ds) :: ts).
+        apply (T_arg isnum d ds r'' ts); [constructor; assumption | exact Hh | exact Ht].
+      + right. exists (1 + (byte_len (d :: ds) + n)).
+        apply B_arg; [exact Ed|].
+        apply (bad_digits (d :: ds) r'' n); [constructor; assumption | exact Hb].
+  Qed.
+End Total.
+
+Lemma spec_total : spec_total_stmt.
+Proof. intros isnum pre Hs. apply (total_len isnum Hs (length pre)). lia. Qed.
+
+Lemma subst_mirror_meets_spec : subst_mirror_meets_spec_stmt.
+Proof.
+  intros isnum pre Hs.
+  destruct (spec_total isnum pre Hs) as [[ts Ht]|[n Hb]].
+  - left. exists ts. split; [exact Ht | apply subst_ok; assumption].
+  - right. exists n. split; [exact Hb | apply subst_err; assumption].
+Qed.
+
+Section Unique.
+  Variable isnum : N -> bool.
+  Hypothesis Hsane : isnum_sane isnum.
+
+  Lemma run_unique : forall ds1 ds2 r1 r2,
+    Forall (fun c => isnum c = true) ds1 -> Forall (fun c => isnum c = true) ds2 ->
+    head_not_numeric isnum r1 -> head_not_numeric isnum r2 ->
+    ds1 ++ r1 = ds2 ++ r2 -> ds1 = ds2 /\ r1 = r2.
+  Proof.
+    induction ds1 as [|a ds1 IH]; intros ds2 r1 r2 H1 H2 Hh1 Hh2 E.
+    - destruct ds2 as [|b ds2]; [split; [reflexivity | exact E]|].
+      cbn [app] in E. subst r1. cbn in Hh1. inversion H2; subst. congruence.
+    - destruct ds2 as [|b ds2].
+      + cbn [app] in E. subst r2. cbn in Hh2. inversion H1; subst. congruence.
+      + cbn [app] in E. inversion E; subst.
+        inversion H1; subst. inversion H2; subst.
+        destruct (IH ds2 r1 r2) as [Ea Eb]; try assumption.
+        subst. split; reflexivity.
+  Qed.
+
+  Lemma tokenises_unique_gen : forall pre ts1, tokenises isnum pre ts1 ->
+    forall ts2, tokenises isnum pre ts2 -> ts1 = ts2.
+  Proof.
+    destruct Hsane as [S1 [S2 S3]].
+    intros pre ts1 H.
+    induction H as [ | c r ts Hc Ht IH | r ts Ht IH | r ts Ht IH | r ts Ht IH
+                     | d ds r ts Hnum Hhd Ht IH ]; intros ts2 H2.
+    - inversion H2. reflexivity.
+    - inversion H2; subst; try (exfalso; apply Hc; reflexivity).
+      f_equal. apply IH. assumption.
+    - inversion H2; subst.
+      + exfalso. match goal with H : _ <> DOLLAR |- _ => apply H; reflexivity end.
+      + f_equal. apply IH. assumption.
+      + exfalso. match goal with H : Forall _ (_ :: _) |- _ => inversion H; subst end.
+        unfold DOLLAR in *. congruence.
+    - inversion H2; subst.
+      + exfalso. match goal with H : _ <> DOLLAR |- _ => apply H; reflexivity end.
+      + f_equal. apply IH. assumption.
+      + exfalso. match goal with H : Forall _ (_ :: _) |- _ => inversion H; subst end.
+        congruence.
+    - inversion H2; subst.
+      + exfalso. match goal with H : _ <> DOLLAR |- _ => apply H; reflexivity end.
+      + f_equal. apply IH. assumption.
+      + exfalso. match goal with H : Forall _ (_ :: _) |- _ => inversion H; subst end.
+        congruence.
+    - assert (Hd : isnum d = true) by (inversion Hnum; assumption).
+      inversion H2; subst.
+      + exfalso. match goal with H : _ <> DOLLAR |- _ => apply H; reflexivity end.
+      + exfalso. unfold DOLLAR in *. congruence.
+      + exfalso. congruence.
+      + exfalso. congruence.
+      + assert (Hds : Forall (fun c => isnum c = true) ds) by (inversion Hnum; assumption).
+        match goal with
+        | Hn0 : Forall _ (d :: ?ds0), Hh0 : head_not_numeric isnum ?r0, E : ?ds0 ++ ?r0 = ds ++ r |- _ =>
+            assert (Hds0 : Forall (fun c => isnum c = true) ds0) by (inversion Hn0; assumption);
+            destruct (run_unique ds ds0 r r0 Hds Hds0 Hhd Hh0 (eq_sym E)) as [Ea Eb]
+        end.
+        subst. f_equal. apply IH. assumption.
+  Qed.
+End Unique.
+
+Lemma tokenises_unique : tokenises_unique_stmt.
+Proof. intros isnum pre ts1 ts2 Hs H1 H2. apply (tokenises_unique_gen isnum Hs pre ts1 H1 ts2 H2). Qed.
+
+(* ------------------------------------------------------------------ *)
+(* (ii) wrapper arguments                                              *)
+(* ------------------------------------------------------------------ *)
+
+Lemma wrapper_args_spec : wrapper_args_spec_stmt.
+Proof.
+  intros V syms drain H.
+  induction H as [|s a syms' drain' Hm Hrest IH]; cbn [unpack map].
+  - reflexivity.
+  - destruct s as [t|r]; destruct a as [l|r' x]; cbn in Hm; try contradiction.
+    + cbn [unpack1 obind]. rewrite IH. reflexivity.
+    + subst r'. cbn [unpack1]. rewrite Nat.eqb_refl. cbn [obind]. rewrite IH. reflexivity.
+Qed.
+
+Lemma wrapper_panics_only_on_mismatch : wrapper_panics_only_on_mismatch_stmt.
+Proof.
+  intros V syms drain Hp Hm.
+  rewrite (wrapper_args_spec V syms drain Hm) in Hp. discriminate.
+Qed.
+
+Lemma list_eqb_eq : forall a b, list_eqb a b = true <-> a = b.
+Proof.
+  induction a as [|x a IH]; intros b; destruct b as [|y b]; cbn [list_eqb]; split; intro H;
+    try reflexivity; try discriminate.
+  - apply andb_true_iff in H. destruct H as [H1 H2].
+    apply N.eqb_eq in H1. apply IH in H2. subst. reflexivity.
+  - inversion H; subst. rewrite N.eqb_refl. cbn [andb]. apply IH. reflexivity.
+Qed.
+
+Lemma uint_codes_inj : forall u1 u2, uint_codes u1 = uint_codes u2 -> u1 = u2.
+Proof.
+  induction u1 as [|u1 IH|u1 IH|u1 IH|u1 IH|u1 IH|u1 IH|u1 IH|u1 IH|u1 IH|u1 IH];
+    intros u2 H; destruct u2 as [|u2|u2|u2|u2|u2|u2|u2|u2|u2|u2];
+    cbn [uint_codes] in H; try discriminate H; try reflexivity;
+    inversion H as [H']; f_equal; apply IH; exact H'.
+Qed.
+
+Lemma arg_name_inj : forall i j, arg_name i = arg_name j -> i = j.
+Proof.
+  intros i j H. unfold arg_name in H. apply app_inv_head in H.
+  unfold decimal in H. apply uint_codes_inj in H.
+  apply DecimalNat.Unsigned.to_uint_inj. exact H.
+Qed.
+
+Lemma lookup_env_gen : forall (A : Type) (vals : list A) start k,
+  start <= k < start + length vals ->
+  lookup (arg_name k) (combine (map arg_name (seq start (length vals))) vals)
+  = nth_error vals (k - start).
+Proof.
+  intros A vals. induction vals as [|v vals IH]; intros start k Hk; cbn [length] in Hk.
+  - lia.
+  - cbn [length seq map combine lookup].
+    destruct (list_eqb (arg_name k) (arg_name start)) eqn:E.
+    + apply list_eqb_eq in E. apply arg_name_inj in E. subst k.
+      rewrite Nat.sub_diag. reflexivity.
+    + assert (k <> start).
+      { intro Ek. subst k. assert (list_eqb (arg_name start) (arg_name start) = true)
+          by (apply list_eqb_eq; reflexivity). congruence. }
+      rewrite (IH (S start) k) by lia.
+      replace (k - start) with (S (k - S start)) by lia. reflexivity.
+Qed.
+
+Lemma dollar_k_denotes_kth : dollar_k_denotes_kth_stmt.
+Proof.
+  intros A vals k Hk. unfold action_env. cbn [render1].
+  change (out_arg ++ decimal k) with (arg_name k).
+  apply lookup_env_gen. lia.
+Qed.
+
+Lemma lookup_none_gen : forall (A : Type) (vals : list A) start name,
+  (forall k, start <= k < start + length vals -> name <> arg_name k) ->
+  lookup name (combine (map arg_name (seq start (length vals))) vals) = None.
+Proof.
+  intros A vals. induction vals as [|v vals IH]; intros start name H; cbn [length seq map combine lookup].
+  - reflexivity.
+  - destruct (list_eqb name (arg_name start)) eqn:E.
+    + apply list_eqb_eq in E. exfalso. apply (H start); [cbn [length]; lia | exact E].
+    + apply IH. intros k Hk. apply H. cbn [length]. lia.
+Qed.
+
+Lemma dollar_out_of_range_unbound : dollar_out_of_range_unbound_stmt.
+Proof.
+  intros A vals ds H. unfold action_env. cbn [render1].
+  apply lookup_none_gen. intros k Hk E.
+  unfold arg_name in E. apply app_inv_head in E. apply (H k); [lia | exact E].
+Qed.
+
+(* ------------------------------------------------------------------ *)
+(* (iii) flags                                                         *)
+(* ------------------------------------------------------------------ *)
+
+Lemma unquote_quote : forall (A : Type) (o : option A), unquote (quote_option o) = o.
+Proof. intros A o. destruct o; reflexivity. Qed.
+
+Lemma lexerdef_flags_roundtrip : lexerdef_flags_roundtrip_stmt.
+Proof.
+  intros h. unfold regen, run_generated_flags, quote_flags, fill. cbn.
+  rewrite !unquote_quote. reflexivity.
+Qed.
+
+Lemma fill_idempotent : fill_idempotent_stmt.
+Proof.
+  intros [a b c d e f g h i j k l]. unfold fill. cbn.
+  destruct a, b, c, d, e, f, g, h, i, j, k, l; reflexivity.
+Qed.
+
+Lemma fill_spec : fill_spec_stmt.
+Proof.
+  intros h. rewrite lexerdef_flags_roundtrip.
+  repeat split; try (intros x Hx; unfold fill; cbn; rewrite Hx; reflexivity).
+Qed.
+
+Lemma rule_new_no_panic : rule_new_no_panic_stmt.
+Proof.
+  intros h. rewrite lexerdef_flags_roundtrip.
+  destruct h as [a b c d e f g h i j k l]. unfold rule_new_flags, fill. cbn.
+  destruct a, b, c; reflexivity.
+Qed.
+
+(* the hypotheses of the statements are satisfiable *)
+Example ascii_digit_sane : isnum_sane ascii_digit.
+Proof. repeat split. Qed.
+
+Example isnum_with_sane : forall extra, isnum_sane (isnum_with extra).
+Proof. intros extra. repeat split. Qed.
+
+(* "{ f($lexer, $1, $span) + '$$' }" with $12 and a trailing bad '$' *)
+Example subst_example :
+  subst ascii_digit [36;108;101;120;101;114; 32; 36;49;50; 32; 36;36; 36;115;112;97;110]%N
+  = Done (SubstOk (out_lexer ++ [32]%N ++ out_arg ++ [49;50;32]%N ++ [36]%N ++ out_span)).
+Proof. vm_compute. reflexivity. Qed.
+
+Example subst_example_bad :
+  subst ascii_digit [97; 36; 233; 36]%N = Done (SubstErr 2).
+Proof. vm_compute. reflexivity. Qed.
+
+Example entry_matches_example :
+  Forall2 (@entry_matches nat) [Tok 3; Rule 1]
+    [ALexeme {| lx_tok := 3; lx_start := 0; lx_len := 0; lx_faulty := true |}; AAction 1 7].
+Proof. repeat constructor. Qed.
